@@ -255,7 +255,7 @@ func init() {
 		Assumptions: wsAssume,
 		Harnesses: []harnessSpec{
 			{Pkg: "websocket", Func: "HarnessC13_RoundTrip", TimeFixed: true, Labels: []string{"roundtrip"},
-				Bound:  "client or server; APIs {WriteMessage, NextWriter+2 Writes with every split, WriteString, ReadFrom from readers with/without (n,EOF) and 1-2 byte chunks, prepared message}; one message of 0..6 symbolic bytes with write buffer 1/4/16; one message of 125/126/127 bytes (3 symbolic positions) with write buffer 16/4096; two messages of 0..2 bytes; mask key symbolic",
+				Bound:  "client or server; APIs {WriteMessage, NextWriter+2 Writes with every split, WriteString, ReadFrom from readers with/without (n,EOF) and 1-2 byte chunks, prepared message}; one message of 0..6 symbolic bytes with write buffer 1/4/16; one message of 125/126/127 bytes (3 symbolic positions) with write buffer 16/4096; two messages of 0..2 bytes; one message of 65535/65536 bytes in a single frame (write buffer 70000, WriteMessage and NextWriter+Writes); mask key symbolic",
 				BoundT: "messages of 0..20 bytes; boundary sizes 125,126,127,4095,4096,4097,65535,65536; sessions of 2-3 messages"},
 			{Pkg: "websocket", Func: "HarnessC13_TruncWriter", Labels: []string{"truncwriter"}, Bound: "every input of 0..10 symbolic bytes split into 3 writes at every pair of offsets"},
 		},
